@@ -229,7 +229,7 @@ impl<Mutex: StateMutex, Controller: SourceController> CsptpSource<'_, Mutex, Con
                             state.csptp_state.grandmaster_priority_2 = status.grandmaster_priority2;
                             state.csptp_state.grandmaster_clock_quality =
                                 status.grandmaster_clock_quality;
-                            state.csptp_state.steps_removed = status.steps_removed + 1;
+                            state.csptp_state.steps_removed = status.steps_removed.saturating_add(1);
                             state.csptp_state.ptp_timescale = measurement.ptp_timescale;
                             state.csptp_state.time_traceable = measurement.time_traceable;
                             state.csptp_state.frequency_traceable = measurement.frequency_traceable;
